@@ -119,6 +119,51 @@ class C05(Prop):
             return spec if ch else None
         return {"client-first-segment-in-order": first_in_order}
 
+    def preconditions(self):
+        def tail_frames(spec):
+            """KF-1's specific history: in some plan the client's first data segment is captured late AND the client
+            bytes captured before it form a whole number of TLS records on their own (5-byte headers chain exactly)"""
+            for plan in spec.get("plans", []):
+                ex = world.expand(self.plan_spec(spec, plan))
+                t = ex["truth"]["conns"][0]
+                fr = [f for f in t["frames"] if f["d"] == "c" and f["kept"]]
+                if not fr or fr[0]["lo"] == 0:
+                    continue
+                # bytes seen before the segment starting at offset 0, as one contiguous run starting at the first seen
+                early = []
+                for f in fr:
+                    if f["lo"] == 0:
+                        break
+                    early.append((f["lo"], f["hi"]))
+                early.sort()
+                lo, hi = early[0]
+                for a, b in early[1:]:
+                    if a == hi:
+                        hi = b
+                buf = t["streams"]["c"][lo:hi]
+                pos = 0
+                while len(buf) - pos >= 5:
+                    pos += 5 + int.from_bytes(buf[pos + 3:pos + 5], "big")
+                    if pos == len(buf):
+                        return True
+                # any prefix of the early run that frames exactly is enough for the session to consume it
+                for cut in range(5, len(buf) + 1):
+                    pos = 0
+                    while cut - pos >= 5:
+                        pos += 5 + int.from_bytes(buf[pos + 3:pos + 5], "big")
+                        if pos == cut and any(h == lo + cut for _, h in early):
+                            return True
+                        if pos > cut:
+                            break
+            return False
+        return {"client-tail-frames-as-records": tail_frames}
+
+    def focus_spec(self, spec, viol):
+        if viol.focus is not None and spec.get("plans") and viol.focus < len(spec["plans"]):
+            spec["plans"] = [spec["plans"][viol.focus]]
+            return spec
+        return None
+
     def reduction_candidates(self, spec):
         plans = spec.get("plans", [])
         if len(plans) > 1:
@@ -155,7 +200,7 @@ class C05(Prop):
                         c["plans"][k]["acts"] = {}
                         yield "plan %d: halve cuts %s" % (k, d), c
 
-    def check_records(self, out, spec, ex, res, tag):
+    def check_records(self, out, spec, ex, res, tag, focus=None):
         """in-process level: the record handler must see exactly the records of each byte stream, once, in order,
         each with the captured packets (first-seen copies) overlapping its byte range"""
         t = ex["truth"]["conns"][0]
@@ -180,7 +225,8 @@ class C05(Prop):
                 else:
                     cls = "records-wrong"
                 out.violate("record-handler-sees-stream-records", cls,
-                            "%s dir %s: handler saw %d records, stream has %d; plan %s" % (tag, d, len(graw), len(wraw), tag))
+                            "%s dir %s: handler saw %d records, stream has %d; plan %s" % (tag, d, len(graw), len(wraw), tag),
+                            focus=focus)
                 continue
             isn = tcp.get("isn_" + d, 1000 if d == "c" else 5000)
             first = {}
@@ -194,7 +240,8 @@ class C05(Prop):
                 if got_md != exp_md:
                     out.violate("record-metadata-is-overlapping-packets", "metadata-wrong",
                                 "%s dir %s record at %d..%d: metadata %s expected %s" % (tag, d, r["lo"], r["hi"],
-                                                                                        str(got_md)[:200], str(exp_md)[:200]))
+                                                                                        str(got_md)[:200], str(exp_md)[:200]),
+                                focus=focus)
                     break
 
     def check(self, lane, spec):
@@ -240,19 +287,19 @@ class C05(Prop):
                                                          plan.get("isn_c"), plan.get("isn_s"))
             fc = failure_class(res)
             if fc:
-                out.violate("no-failure", fc, tag + "\n" + failure_detail(res))
+                out.violate("no-failure", fc, tag + "\n" + failure_detail(res), focus=k)
                 continue
             try:
                 g = Flows(ps, ex["truth"], res.out).tcp_streams(0)
             except Exception as e:
-                out.violate("output-readable", "unreadable:%s" % getattr(e, "rule", type(e).__name__), tag)
+                out.violate("output-readable", "unreadable:%s" % getattr(e, "rule", type(e).__name__), tag, focus=k)
                 continue
             for d in "cs":
                 cls = stream_mismatch_class(g[d], b[d])
                 if cls:
                     out.violate("plan-equals-canonical", cls, "%s dir %s: %d bytes vs canonical %d bytes (truth %d); %s" % (
-                        tag, d, len(g[d]), len(b[d]), len(truth["app"][d]), describe_conn(conn)))
-            self.check_records(out, ps, ex, res, tag)
+                        tag, d, len(g[d]), len(b[d]), len(truth["app"][d]), describe_conn(conn)), focus=k)
+            self.check_records(out, ps, ex, res, tag, focus=k)
             if truth["app"]["c"] or truth["app"]["s"]:
                 out.nontrivial = True
             out.add("plans", world.interleave_signature(ex["taplog"]) + str(hash(str(plan["cuts"])) % 100000))
